@@ -5,13 +5,13 @@ sys.path.insert(0, os.path.dirname(os.path.abspath(__file__)))
 
 META = {
     'engine': 'lean-D',
-    'technique': 'Lean 4 refinement proof (simulation relation, induction over all API-permitted operation lists, every depth 1..32, every message size 1..65535, every slack) '
+    'technique': 'Lean 4 translation tie (messageq.c regenerated into Lean on every run, proved equal to the model function by function by bv_decide + kernel arithmetic) under a Lean 4 refinement proof (simulation relation, induction over all API-permitted operation lists, every depth 1..32, every message size 1..65535, every slack) '
                  'of a hand model of messageq.c with the C integer widths against a ticket-window FIFO specification; model tied to the C by differential runs over geometries',
     'level_text': 'For every depth 1..32, message size 1..65535 (the uint16_t field), slack < message size and every sequential history in which sends are reordered among claimed messages and releases follow receives '
                   '(any length): claim returns base+(k mod depth)*size for the k-th grant (pairwise disjoint ranges inside the first depth*size bytes, cyclic) and NULL iff claimed-released = depth; '
                   'receive returns ticket number `received` iff it has been sent, else NULL; messageq_empty iff receive would return NULL; slack bytes lie outside every returned range; bit 31 behaves as any other flag; '
                   'messageq_init and MESSAGEQ_VAR_INIT give equal structures. Proved for the model; the model is compared with the real code on sampled geometries/histories every run.',
-    'level_note': 'Trusted: Lean kernel (standard axioms only); hand model of messageq.c/.h validated each run against the real code (offsets, NULLs, empty, full struct contents after every op, guard and slack bytes, '
+    'level_note': 'Trusted: Lean kernel (standard axioms; one bv_decide certificate axiom per *_generated theorem of Props/C10Tie.lean, none in the C10 theorems themselves); tools/c2lean2.py + clang AST (tie T2: init/claim/send/receive/release/empty regenerated from messageq.c and proved equal to the model on every well-formed structure, the model answers undefined exactly where the C divides by zero or shifts out of range); hand model of messageq.c/.h validated each run against the real code (offsets, NULLs, empty, full struct contents after every op, guard and slack bytes, '
                   'masked memcmp of the two initialisers); message sizes above 65535 do not fit the uint16_t msg_len field and are outside the proved scope (the library truncates them); '
                   'the library never reads or writes the storage, so "never touched" is address arithmetic (proved) plus guard bytes under ASan (sampled).',
     'design_ref': '§6 C10',
